@@ -149,29 +149,6 @@ def getEffectiveOld (e : Env) (s : St) (d : Int) : Except FxErr DailyRate × St 
   | (.ok (some r), s') => (.ok r, s')
   | (.ok none, s') => lookBackOld e 7 s' d
 
-/-! A date text whose laws are easy to prove (tally marks), for non-vacuity of C14. -/
-
-def tallyDateText : DateText :=
-  { render := fun d =>
-      if 2458850 ≤ d then 'p' :: List.replicate (d - 2458850).toNat 'x'
-      else 'n' :: List.replicate (2458850 - d).toNat 'x'
-    parse := fun s =>
-      match s with
-      | 'p' :: xs => if xs.all (· == 'x') then some (2458850 + (xs.length : Int)) else none
-      | 'n' :: xs => if xs.all (· == 'x') then some (2458850 - (xs.length : Int)) else none
-      | _ => none }
-
-theorem tallyDateText_ok : tallyDateText.OK (fun _ => True) := by
-  refine ⟨?_, ?_, ?_⟩
-  · intro d _
-    by_cases h : 2458850 ≤ d
-    · simp [tallyDateText, h, List.all_replicate]; omega
-    · simp [tallyDateText, h, List.all_replicate]; omega
-  · intro d _
-    by_cases h : 2458850 ≤ d <;> simp [tallyDateText, h, List.mem_replicate]
-  · intro d _
-    by_cases h : 2458850 ≤ d <;> simp [tallyDateText, h, List.mem_replicate]
-
 /-- The year 2020 as the run of Jan 21 downloads and fills it (20 rows), with rate texts. -/
 def exRateText (r : Rat) : List Char :=
   if r = 13/10 then "1.3".toList else if r = 131/100 then "1.31".toList
